@@ -88,7 +88,8 @@ def run_trace(name, prog, ops, mode, exc="Injected"):
             st["raised"] = raised
             st["dlog"] = [d[:5] for d in B.Obs.dlog[d0:]]
             st["elog"] = [e for e in B.Obs.elog[e0:]]
-            st["nst"] = B.project(built)
+            st["opq"] = []
+            st["nst"] = B.project(built, st["opq"])
             st["downs"] = B.project_downs(built)
             st["rc"] = B.project_rc(tags, NTAGS)
             st["cbs"] = list(cbs)
